@@ -41,9 +41,9 @@ WRITES = {"mstore", "mstore8", "sstore"}
 
 TRIAGED_UNPROVEN = {
     "symbol~symbol:one-is-subterm-of-the-other":
-        "are_dependent answers False when get_variables(var2) contains var1; get_variables only appends leaves that are not keys of u_dict "
-        "and u_dict values are (tuple, arity) pairs whose first component is never a key, so the membership cannot hold for distinct "
-        "variables on today's data shapes (checked at run time: x and x+1 are reported dependent)",
+        "are_dependent answers False when get_variables(var2) contains var1.  On today's tree get_variables recurses on the (tuple, arity) pair "
+        "instead of the tuple, never reaches a leaf and the shortcut is dead.  That premise is *checked*: C02.a evaluates are_dependent on "
+        "x vs x+1, x+31, x&y, mload(x), (x+1)+3 with u_dict filled accordingly and requires 'dependent'",
 }
 
 
@@ -151,6 +151,21 @@ def rule_a(ctx, out):
                     n += 1
                     if got is not True:
                         bad_regions.setdefault((k1, k2, "symbolic", cls), []).append((str(a1), str(a2), got))
+    # ---- an address computed from the other address (x and x+1, x+31, x & y, mload(x)): may overlap / be equal ------------------
+    derived = {"s(5)": (("s(1)", 1, "+"), 2), "s(6)": (("s(1)", 31, "+"), 2), "s(7)": (("s(1)", "s(2)", "and"), 2), "s(8)": (("s(1)", "mload0"), 1),
+               "s(10)": (("s(5)", 3, "+"), 2)}
+    env["u_dict"] = dict(derived)
+    for k1, k2, loc in (("mstore", "mstore", "memory"), ("mstore", "mload", "memory"), ("mload", "mstore", "memory"), ("mstore8", "mstore", "memory"),
+                        ("sstore", "sstore", "storage"), ("sstore", "sload", "storage")):
+        for d in ("s(5)", "s(6)", "s(7)", "s(8)", "s(10)"):
+            if loc == "storage" and d in ("s(5)", "s(6)", "s(10)"):
+                continue            # x and x+1 are different keys; x & y and sload(x) may equal x
+            for a1, a2 in (("s(1)", d), (d, "s(1)")):
+                got = call(_tuple(k1, a1, 7), _tuple(k2, a2, 7), loc)
+                n += 1
+                if got is not True:
+                    bad_regions.setdefault((k1, k2, "symbolic", "address-computed-from-the-other"), []).append((str(a1), f"{a2} = {derived.get(a2, derived.get(a1))[0]}", got))
+    env["u_dict"] = {}
     # ---- storage -----------------------------------------------------------------------------------------
     for k1 in ("sstore", "sload"):
         for k2 in ("sstore", "sload"):
